@@ -99,7 +99,7 @@ def run(ctx):
     sr, sfiles = svcfam.scripts(ctx, deep=not ctx.quick(), drop=True, free=True)
     states += sr.distinct
     trans += sr.generated
-    ssum = svcfam.run_rpc(ctx, sfiles, 1500 if ctx.quick() else 0)
+    ssum = svcfam.run_rpc(ctx, sfiles, 1500 if ctx.quick() else 0, None if ctx.quick() else 20000)
     ctx.coverage = {
         "call_scripts": {"model": "SvcCall.tla (refines Rpc.tla, checked by TLC)", "executed": ssum["scripts"], "generated": ssum["of"],
                          "with_lost_connection": ssum.get("lost", 0),
